@@ -72,9 +72,36 @@ def check_overflow_case(case):
     return vs, info
 
 
+def check_failing_case(case):
+    """the objective raises at its k-th global evaluation - once, or from then on at every call.  Claimed here (C03): Solve TERMINATES
+    (also when every further evaluation would raise), the objective is not called beyond the budget (attempted calls <= itersLimit,
+    completed ones <= attempted) and the reported number of trials is the number of completed evaluations"""
+    vs, info = [], {"failing_family": True}
+    k, how = case["fail"]
+    run = oc.Run(case, fail_at=k, exc=ValueError)
+    run.problem.fail_forever = how == "forever"
+    err, sol = None, None
+    try:
+        sol = run.solve()
+    except BaseException as e:                # noqa
+        err = repr(e)
+    if err or run.runaway or run.hang or sol is None:
+        vs.append(oc.violation(PROP, case, "terminates", {"raised": err, "runaway": run.runaway, "hang": run.hang, "calls": run.calls}))
+        return vs, info
+    T, attempted = len(run.glog()), run.problem.ncalls_global
+    info["trials"] = T
+    if attempted > case["lim"] or T > attempted:
+        vs.append(oc.violation(PROP, case, "budget", {"attempted_global_calls": attempted, "completed": T, "itersLimit": case["lim"]}))
+    if sol.numberOfGlobalTrials != T:
+        vs.append(oc.violation(PROP, case, "evals-equal-reported", {"global_calls": T, "reported": sol.numberOfGlobalTrials}))
+    return vs, info
+
+
 def check_case(case):
     if case["spec"]["kind"] == "band":
         return check_overflow_case(case)
+    if case.get("fail"):
+        return check_failing_case(case)
     return _check_case(case)
 
 
@@ -162,6 +189,12 @@ def gen(r):
                 "big": r.choice([1e155, 1e200, 1e300, 1.7976931348623157e308, float("inf"), -1e200, 1e100]),
                 "of": oc.objectives.gen_spec(r, n)}
         return oc.gen_case(r, n=n, spec=spec, lim=r.choice([5, 17, 40, 150]))
+    if r.random() < 0.03:
+        case = oc.gen_case(r, lim=r.choice([5, 8, 17, 40]))
+        case["fail"] = [r.randint(1, max(1, case["lim"] - 1)), r.choice(["once", "forever"])]
+        for k_ in ("shipped", "bg"):
+            case.pop(k_, None)
+        return case
     u = r.random()
     kw = {}
     if u < 0.2:
